@@ -402,6 +402,9 @@ def run(ctx):
             good = good and D is not None and len(io_) == 1 and t.val(io_[0]["length"]) == N.mk_mod(N.mk_neg(D), modulus)
         ctx.ob("C03.R5", fi, good, "Aligned.%s pads with (-consumed) mod modulus bytes" % meth, key="Aligned %s pad" % meth)
     pad_content(ctx, "C03.R5")
+    # the transforming wrappers consume exactly the amount they declare (an amount of 0 reads nothing; only None reads to the end), shared with C10.R6
+    from . import C10 as _C10
+    _C10.machinery(ctx, "C03.R5")
     fi, paths = own_method_paths(ctx, "Prefixed", "_build")
     lf = N.selfattr("lengthfield")
     inc = N.selfattr("includelength")
@@ -456,7 +459,7 @@ def run(ctx):
     ctx.floor("C03.R5", 17)
     from . import C04
     C04.shared_obligations(ctx, "C03.R8", {"FormatField", "BytesInteger", "BitsInteger", "VarInt", "ZigZag", "Flag", "Bytes", "GreedyBytes", "StringEncoded", "Padded", "Aligned", "Prefixed",
-                                           "PrefixedArray", "Array", "GreedyRange", "Struct", "Sequence", "Enum", "Mapping", "FlagsEnum", "Const", "NullTerminated", "NullStripped", "FixedSized"})
+                                           "PrefixedArray", "Array", "GreedyRange", "Struct", "Sequence", "Enum", "Mapping", "FlagsEnum", "Const", "NullTerminated", "NullStripped", "FixedSized"}, with_expressions=True)     # lengths, counts and pad amounts are usually given as expressions: their operator semantics too
     ctx.floor("C03.R8", 20)
 
     from .. import interval
